@@ -400,6 +400,20 @@ func (s *Session) Close() error {
 	return s.closeWithError(nil)
 }
 
+// closeByUnderlay terminates a session that neither the application nor the
+// peer has closed: the underlay is going away, or the session has been idle
+// for too long. Something the peer sent may be missing. A reader that has
+// consumed the received data gets an abnormal end of stream instead of a
+// clean EOF.
+func (s *Session) closeByUnderlay() error {
+	if !s.closeRequested.Load() {
+		if s.inputHasErr.CompareAndSwap(false, true) {
+			close(s.inputErr)
+		}
+	}
+	return s.Close()
+}
+
 func (s *Session) LocalAddr() net.Addr {
 	if s.conn != nil {
 		return s.conn.LocalAddr()
